@@ -251,6 +251,9 @@ def run(cx):
     inst_resync_guard(cx, "C02.c")
     inst_resend_pairing(cx, "C02.d")
     inst_emit_guards(cx, "C02.e")
+    # "delivered within bounded time": the retransmission interval of a lost fragment is bounded (capped back-off)
+    from props.shared import resend_schedule
+    resend_schedule(cx, "C02.u")
     # a Reliable packet is also "skipped" when the receiver turns it into a data-less packet because its
     # allocation counter drifted (what is charged must be what is released, at both ends), when the frame
     # window refuses the sender's resynchronisation after a fully lost window, or when an id comparison
